@@ -878,3 +878,104 @@ Proof.
   destruct (run_is_gens_n c inp _ _ _ _ _ Hr) as (n & -> & -> & _).
   apply (gens_n_ck c S0 inp Ht Hk H1 Hs n (init_state pop0) 0); auto.
 Qed.
+
+(* ------------------------------------------------------------------ learn-call schedule including the warm-up *)
+
+(* number of leading iterations of a training phase after which the memory is still not ready
+   (fewer than batch_size transitions, learning_delay not passed, n-step deque still filling) *)
+Fixpoint warmup (c : cfg) (h : hp) (n : nat) (m : mem) : nat :=
+  match n with
+  | 0 => 0
+  | S n' => let m' := mem_add c (num_envs c) m in
+            if ready c h m' then 0 else S (warmup c h n' m')
+  end.
+
+Lemma warmup_le c h : forall n m, warmup c h n m <= n.
+Proof. induction n as [|n IH]; intros m; cbn [warmup]; [lia|]. destruct (ready c h _); [lia|]. specialize (IH (mem_add c (num_envs c) m)). lia. Qed.
+
+(* the memory after j stored (vectorised) transitions *)
+Definition adds (c : cfg) (j : nat) (m : mem) : mem := iter j (mem_add c (num_envs c)) m.
+
+Lemma warmup_spec_lemma c h : forall n m,
+  (forall j, j < warmup c h n m -> ready c h (adds c (S j) m) = false) /\
+  (warmup c h n m < n -> ready c h (adds c (S (warmup c h n m)) m) = true).
+Proof.
+  induction n as [|n IH]; intros m; cbn [warmup].
+  - split; intros; lia.
+  - destruct (ready c h (mem_add c (num_envs c) m)) eqn:E.
+    + split; [intros; lia|]. intros _. exact E.
+    + destruct (IH (mem_add c (num_envs c) m)) as [A B]. split.
+      * intros j Hj. destruct j as [|j]; [exact E|]. unfold adds. cbn [iter]. apply A. lia.
+      * intros Hlt. unfold adds. cbn [iter]. apply B. lia.
+Qed.
+
+Lemma rollout_off_learn_warmup c h : forall n i m r,
+  r_learn (snd (rollout_off c h i n m r)) =
+  r_learn r + sched c h (i + warmup c h n m) (n - warmup c h n m).
+Proof.
+  induction n as [|n IH]; intros i m r.
+  - cbn. lia.
+  - cbn [warmup]. destruct (ready c h (mem_add c (num_envs c) m)) eqn:E.
+    + rewrite Nat.add_0_r, Nat.sub_0_r. apply rollout_off_learn. exact E.
+    + cbn [rollout_off]. rewrite IH. cbn [r_learn]. rewrite (not_ready_no_learn c h i _ E).
+      replace (S i + warmup c h n (mem_add c (num_envs c) m)) with (i + S (warmup c h n (mem_add c (num_envs c) m))) by lia.
+      cbn [Nat.sub]. lia.
+Qed.
+
+(* closed form of the learn-call schedule of ANY off-policy training phase: nothing during the w warm-up iterations,
+   then the steady schedule; iteration indices keep counting from the start of the phase *)
+Lemma learn_schedule_warmup_lemma c h m :
+  (lp c = Off \/ lp c = MAOff) -> 1 <= num_envs c ->
+  let n := evo_steps c / num_envs c in
+  let w := warmup c h n m in
+  r_learn (snd (rollout c h m)) =
+    if num_envs c <? ls h then cdiv n (ls h / num_envs c) - cdiv w (ls h / num_envs c)
+    else (n - w) * (num_envs c / ls h).
+Proof.
+  intros Hl H1 n w.
+  assert (E : r_learn (snd (rollout c h m)) = sched c h w (n - w)).
+  { unfold rollout. destruct Hl as [-> | ->]; rewrite rollout_off_learn_warmup; reflexivity. }
+  rewrite E. pose proof (warmup_le c h n m) as Hw. fold w in Hw.
+  destruct (num_envs c <? ls h) eqn:B.
+  - rewrite sched_every by assumption. replace (w + (n - w)) with n by lia. reflexivity.
+  - apply sched_many. exact B.
+Qed.
+
+(* train_bandits: nothing is learned before batch_size contexts are stored *)
+Fixpoint warmup_bandit (c : cfg) (h : hp) (n : nat) (m : mem) : nat :=
+  match n with
+  | 0 => 0
+  | S n' => let m' := mem_add c 1 m in
+            if bs h <=? mem_len c m' then 0 else S (warmup_bandit c h n' m')
+  end.
+
+Lemma bandit_schedule_warmup_lemma c h : forall n m r,
+  r_learn (snd (rollout_bandit c h n m r)) = r_learn r + (n - warmup_bandit c h n m) * ls h.
+Proof.
+  induction n as [|n IH]; intros m r; [cbn; lia|].
+  cbn [warmup_bandit]. destruct (Nat.leb_spec (bs h) (mem_len c (mem_add c 1 m))) as [E|E].
+  - rewrite Nat.sub_0_r. apply bandit_schedule_lemma. exact E.
+  - cbn [rollout_bandit]. rewrite IH. cbn [r_learn].
+    destruct (Nat.leb_spec (bs h) (mem_len c (mem_add c 1 m))); [lia|].
+    cbn [Nat.sub]. lia.
+Qed.
+
+(* without an n-step buffer in front, readiness after j stored transitions is a threshold on the number stored:
+   max(batch_size, learning_delay + 1) transitions (and never, if the memory is smaller than that) *)
+Lemma added_adds c : nstep c = 0 -> forall j m, added (adds c j m) = added m + j * num_envs c.
+Proof.
+  intros Hn. unfold adds. induction j as [|j IH]; intros m; cbn [iter]; [lia|].
+  rewrite IH. unfold mem_add. rewrite Hn. cbn [Nat.eqb orb added]. lia.
+Qed.
+
+Lemma ready_threshold_lemma c h j m :
+  nstep c = 0 ->
+  ready c h (adds c j m) =
+    if is_ma c
+    then (bs h <=? Nat.min (mem_cap c) (added m + j * num_envs c)) && (delay c <? added m + j * num_envs c)
+    else (Nat.max (bs h) (S (delay c)) <=? Nat.min (mem_cap c) (added m + j * num_envs c)).
+Proof.
+  intros Hn. unfold ready, mem_len. rewrite (added_adds c Hn). destruct (is_ma c); [reflexivity|].
+  set (x := Nat.min (mem_cap c) (added m + j * num_envs c)).
+  destruct (Nat.leb_spec (bs h) x), (Nat.ltb_spec (delay c) x), (Nat.leb_spec (Nat.max (bs h) (S (delay c))) x); cbn; try reflexivity; lia.
+Qed.
